@@ -304,6 +304,17 @@ impl InterfaceInner {
             Packet::Ipv6(packet) => packet,
         };
 
+        // Compression of a hop-by-hop header carried in the payload (which is how MLD
+        // reports are built) is not implemented. Drop such packets instead of running
+        // into `unreachable!()` below: they are generated by the interface itself, e.g.
+        // in answer to a multicast listener query, so a peer could otherwise make
+        // `poll` panic.
+        #[cfg(feature = "proto-ipv6")]
+        if matches!(packet.payload, IpPayload::HopByHopIcmpv6(..)) {
+            net_debug!("dispatch_sixlowpan: dropping, hop-by-hop payloads are not supported");
+            return;
+        }
+
         // First we calculate the size we are going to need. If the size is bigger than the MTU,
         // then we use fragmentation.
         let (total_size, compressed_size, uncompressed_size) =
